@@ -75,22 +75,17 @@ func (l *Lexer) scanInLine() Token {
 		return l.scanComment()
 	case ch == '(':
 		if l.looksLikeVirtualAccount() {
-			l.advance()
-			return l.makeToken(TokenLParen, "(")
+			return l.scanSingleChar(TokenLParen)
 		}
 		return l.scanCode()
 	case ch == ')':
-		l.advance()
-		return l.makeToken(TokenRParen, ")")
+		return l.scanSingleChar(TokenRParen)
 	case ch == '[':
-		l.advance()
-		return l.makeToken(TokenLBracket, "[")
+		return l.scanSingleChar(TokenLBracket)
 	case ch == ']':
-		l.advance()
-		return l.makeToken(TokenRBracket, "]")
+		return l.scanSingleChar(TokenRBracket)
 	case ch == '|':
-		l.advance()
-		return l.makeToken(TokenPipe, "|")
+		return l.scanSingleChar(TokenPipe)
 	case ch == '@':
 		return l.scanAt()
 	case ch == '=':
@@ -446,6 +441,15 @@ func (l *Lexer) skipSpaces() {
 
 func (l *Lexer) position() Position {
 	return Position{Line: l.line, Column: l.column, Offset: l.pos}
+}
+
+// scanSingleChar consumes one character and returns it as a token that starts AT the
+// character (makeToken positions a token at the current offset, i.e. after it).
+func (l *Lexer) scanSingleChar(typ TokenType) Token {
+	startPos := l.position()
+	ch := l.peek()
+	l.advance()
+	return Token{Type: typ, Value: string(ch), Pos: startPos, End: l.position()}
 }
 
 func (l *Lexer) makeToken(typ TokenType, value string) Token {
